@@ -21,10 +21,17 @@ class Built(object):
     pass
 
 
-def build(ctx, force=None, root_kind=None):
+def build(ctx, force=None, root_kind=None, text=None):
     tape = ctx.tape
     cfg = progen.Cfg(tape, **(force or {}))
-    prog = progen.generate(tape, cfg, root_kind)
+    if text is not None:
+        # a fixed-shape program (templates of the thread legs)
+        prog = progen.Program()
+        prog.text = text
+        prog.root = progen.Func("f0", root_kind or "sync")
+        prog.funcs = [prog.root]
+    else:
+        prog = progen.generate(tape, cfg, root_kind)
     _counter[0] += 1
     filename = "<vsim-%d>" % _counter[0]
     lines = prog.text.splitlines(True)
